@@ -132,63 +132,169 @@ def _only_raises(cfg, node):
 
 
 def union_selection(ctx, a, f, rule):
+    """Provenance of the index written by write_union: a forward may-dataflow over the CFG.
+
+    Abstract values of a local:  ("const", c)   a literal (the no-match sentinel)
+                                 ("loop", L)    the variable of loop L, not yet selected
+                                 ("sel", ok, site)  a value taken from a loop variable at `site` (an assignment,
+                                                or the `break` that leaves the loop), ok = the guards there justify it
+    Tests on a variable that may still be a constant drop the constant on the edge it cannot take (so any
+    spelling of the sentinel test works: == -1, < 0, is None, for/else without sentinel).  At write_index the
+    index must be ("sel", True, _) only."""
     cfg = cfg_of(f)
-    # the variable written as the index
-    term = a.shape(f, "w", W_NAMES)
-    vs = [t for t in tokens(term) if t[0] == "V"]
-    if len(vs) != 1 or not vs[0][1].startswith("$"):
-        ctx.unrecognised(rule, f.qualname, f.where(), "index written is not a single local variable")
+    widx = [n for n in walk_local(f.node) if isinstance(n, ast.Call) and isinstance(n.func, ast.Attribute) and n.func.attr == "write_index"]
+    if len(widx) != 1 or not widx[0].args or not isinstance(widx[0].args[0], ast.Name):
+        ctx.unrecognised(rule, f.qualname, f.where(), "expected exactly one write_index(<local variable>) call")
         return
-    # the shape extractor already resolved `index = best_match_index` copies: the
-    # variable named in the V token is the one the selection logic assigns
-    feed = {vs[0][1][1:]}
-    # validators float/double identical -> the deferral to a later 'double' branch is justified
+    ivar = widx[0].args[0].id
+    wnode = cfg.node_of(widx[0])
     V = a.validators
     float_is_double = V.funcs("float") == V.funcs("double") and bool(V.funcs("float"))
-    datum = f.pos_params[1]
-    n_sites = 0
-    for n in walk_local(f.node):
-        if not (isinstance(n, ast.Assign) and len(n.targets) == 1 and isinstance(n.targets[0], ast.Name) and n.targets[0].id in feed):
-            continue
-        if isinstance(n.value, ast.Name) and n.value.id in feed:
-            continue  # copy
-        if isinstance(n.value, ast.UnaryOp) or (isinstance(n.value, ast.Constant) and isinstance(n.value.value, int) and n.value.value < 0):
-            continue  # sentinel initialisation
-        node = cfg.node_of(n)
+
+    def justified(node):
         guards = cfg.guards_of(node)
         gtxt = [(norm(t.ast), lab) for (t, lab) in guards]
         hinted = any("isinstance" in g and "tuple" in g and lab == "true" for g, lab in gtxt)
         validated = any(_is_validate_call(a, f, t.ast) and lab == "true" for (t, lab) in guards)
-        deferral = any(("'double'" in g or '"double"' in g) and "==" in g and lab == "true" for g, lab in gtxt)
-        n_sites += 1
+        deferral = any(("'double'" in g) and "==" in g and lab == "true" for g, lab in gtxt)
         if hinted:
             named = any("==" in g and lab == "true" and "name" in g for g, lab in gtxt)
-            ctx.check(rule, f"{f.qualname}: hinted choice `{norm(n)}`", named, f.where(n), f"{f.qualname}: {norm(n)}", "in the tuple arm the index is chosen without comparing the hint with the branch name")
-        elif validated:
-            ctx.holds(rule, f"{f.qualname}: choice `{norm(n)}` under _validate true", f.where(n))
-        elif deferral and float_is_double:
-            ctx.holds(rule, f"{f.qualname}: float->double deferral `{norm(n)}`", f.where(n), "VALIDATORS['float'] is VALIDATORS['double']")
-        else:
-            ctx.violation(rule, f"{f.qualname}: choice `{norm(n)}`", f.where(n), f"{f.qualname}: {norm(n)} guards={[g for g, _ in gtxt]}", "a branch index is selected on a path where the datum was not validated against that branch")
-    # sentinel never reaches the write: from each sentinel init, the write is reachable only through another assignment or the == -1 -> raise test
-    widx = [n for n in walk_local(f.node) if isinstance(n, ast.Call) and isinstance(n.func, ast.Attribute) and n.func.attr == "write_index"]
-    if len(widx) != 1:
-        ctx.unrecognised(rule, f.qualname, f.where(), "expected exactly one write_index call")
+            return named, ("hinted choice", "in the tuple arm the index is chosen without comparing the hint with the branch name")
+        if validated:
+            return True, ("choice under _validate true", "")
+        if deferral and float_is_double:
+            return True, ("float->double deferral (VALIDATORS['float'] is VALIDATORS['double'])", "")
+        return False, ("choice", "a branch index is selected on a path where the datum was not validated against that branch")
+
+    loops = {}  # iter node -> loop target names
+    for n in cfg.nodes:
+        if n.kind == "iter":
+            loops[n] = {x.id for x in ast.walk(n.ast.elts[1]) if isinstance(x, ast.Name)}
+    # which loop a break leaves: the innermost enclosing For
+    parents = {}
+    for x in ast.walk(f.node):
+        for c in ast.iter_child_nodes(x):
+            parents[id(c)] = x
+
+    def loop_of(stmt):
+        x = parents.get(id(stmt))
+        while x is not None and not isinstance(x, (ast.For, ast.While)):
+            x = parents.get(id(x))
+        if isinstance(x, ast.For):
+            return cfg.node_of(x.iter)
+        return None
+
+    from sa import guards as _g
+
+    state = {cfg.entry: {}}
+    work = [cfg.entry]
+    sites = {}  # site node -> (ok, description)
+    rounds = 0
+    while work and rounds < 20000:
+        rounds += 1
+        n = work.pop()
+        env = state[n]
+        out = {k: set(v) for k, v in env.items()}
+        s = n.ast if n.kind == "stmt" else None
+        if n.kind == "iter":
+            for v in loops[n]:
+                out[v] = {("loop", n.id)}
+        elif isinstance(s, ast.Assign) and len(s.targets) == 1 and isinstance(s.targets[0], ast.Name):
+            t = s.targets[0].id
+            cv = _g.value_of(s.value, {})
+            if not isinstance(cv, _g._NoVal) and not isinstance(s.value, (ast.List, ast.Tuple, ast.Set)):
+                out[t] = {("const", cv)}
+            elif isinstance(s.value, ast.Name):
+                vals = set()
+                for av in env.get(s.value.id, {("other",)}):
+                    if av[0] == "loop":
+                        ok, desc = justified(n)
+                        sites[n] = (ok, desc, norm(s))
+                        vals.add(("sel", ok, n.id))
+                    else:
+                        vals.add(av)
+                out[t] = vals
+            else:
+                out[t] = {("other",)}
+        elif isinstance(s, ast.Assign):
+            for x in ast.walk(s):
+                if isinstance(x, ast.Name) and isinstance(x.ctx, ast.Store):
+                    # tuple assignment: element-wise when both sides are tuples of names
+                    out[x.id] = {("other",)}
+            if len(s.targets) == 1 and isinstance(s.targets[0], ast.Tuple) and isinstance(s.value, ast.Tuple) and len(s.targets[0].elts) == len(s.value.elts):
+                for tt, vv in zip(s.targets[0].elts, s.value.elts):
+                    if isinstance(tt, ast.Name) and isinstance(vv, ast.Name):
+                        vals = set()
+                        for av in env.get(vv.id, {("other",)}):
+                            if av[0] == "loop":
+                                ok, desc = justified(n)
+                                sites[n] = (ok, desc, norm(s))
+                                vals.add(("sel", ok, n.id))
+                            else:
+                                vals.add(av)
+                        out[tt.id] = vals
+        elif isinstance(s, ast.Break):
+            lp = loop_of(s)
+            if lp is not None:
+                ok, desc = justified(n)
+                for v in loops.get(lp, ()):
+                    if ("loop", lp.id) in out.get(v, ()):
+                        sites[n] = (ok, desc, f"break with {v}")
+                        out[v] = (out[v] - {("loop", lp.id)}) | {("sel", ok, n.id)}
+        for (m, lab) in n.succ:
+            if lab == "exc":
+                continue
+            o2 = out
+            if n.kind == "test" and lab in ("true", "false"):
+                # filter constants the edge cannot carry
+                names = names_in(n.ast)
+                for v in names:
+                    cs = [av for av in out.get(v, ()) if av[0] == "const"]
+                    if cs:
+                        keep = set(out[v])
+                        for av in cs:
+                            r = _g.eval_bool(n.ast, {v: av[1]})
+                            if r is not None and r != (lab == "true"):
+                                keep.discard(av)
+                        if keep != out[v]:
+                            o2 = dict(out)
+                            o2[v] = keep
+                            if not keep and len(out[v]) > 0 and all(av[0] == "const" for av in out[v]):
+                                o2 = None  # edge infeasible for every value
+                                break
+            if o2 is None:
+                continue
+            if n.kind == "iter" and lab == "exhausted":
+                o2 = dict(o2)
+                for v in loops[n]:
+                    if ("loop", n.id) in o2.get(v, ()):
+                        o2[v] = (o2[v] - {("loop", n.id)}) | {("last", n.id)}
+            old = state.get(m)
+            if old is None:
+                state[m] = {k: set(v) for k, v in o2.items()}
+                work.append(m)
+            else:
+                changed = False
+                for k, v in o2.items():
+                    if not v <= old.get(k, set()):
+                        old.setdefault(k, set()).update(v)
+                        changed = True
+                if changed:
+                    work.append(m)
+    final = state.get(wnode, {}).get(ivar)
+    if final is None:
+        ctx.unrecognised(rule, f.qualname, f.where(widx[0]), f"no provenance for `{ivar}` at write_index")
         return
-    wnode = cfg.node_of(widx[0])
-    assigns = [cfg.node_of(n) for n in walk_local(f.node) if isinstance(n, ast.Assign) and len(n.targets) == 1 and isinstance(n.targets[0], ast.Name) and n.targets[0].id in feed and not (isinstance(n.value, ast.UnaryOp) or (isinstance(n.value, ast.Constant) and isinstance(n.value.value, int) and n.value.value < 0)) and not (isinstance(n.value, ast.Name) and n.value.id in feed)]
-    for n in walk_local(f.node):
-        if isinstance(n, ast.Assign) and len(n.targets) == 1 and isinstance(n.targets[0], ast.Name) and n.targets[0].id in feed and (isinstance(n.value, ast.UnaryOp) or (isinstance(n.value, ast.Constant) and isinstance(n.value.value, int) and n.value.value < 0)):
-            init = cfg.node_of(n)
-            # edges that leave a `var == -1` test on its false side are the "found" continuation
-            skip = set()
-            for t in cfg.nodes:
-                if t.kind == "test" and isinstance(t.ast, ast.Compare) and len(t.ast.ops) == 1 and isinstance(t.ast.ops[0], ast.Eq) and isinstance(t.ast.left, ast.Name) and t.ast.left.id in feed:
-                    for (m, lab) in t.succ:
-                        if lab == "false":
-                            skip.add((t, m, lab))
-            reach = cfg.reachable_from(init, avoid=assigns, skip_edges=skip)
-            ctx.check(rule, f"{f.qualname}: no-match sentinel cannot reach write_index", wnode not in reach, f.where(n), f"{f.qualname}: sentinel {norm(n)} reaches write_index", "when no branch matches, the sentinel index can reach the write instead of raising")
+    for n, (ok, (what, why), text) in sorted(sites.items(), key=lambda kv: kv[0].id):
+        inst = f"{f.qualname}: {what} `{text}`"
+        if ok:
+            ctx.holds(rule, inst, f.where(n.ast))
+        elif any(av == ("sel", False, n.id) for av in final):
+            ctx.violation(rule, inst, f.where(n.ast), f"{f.qualname}: {text} guards={[norm(t.ast) for t, _ in cfg.guards_of(n)]}", why)
+    consts = [av for av in final if av[0] == "const"]
+    ctx.check(rule, f"{f.qualname}: no-match sentinel cannot reach write_index", not consts, f.where(widx[0]), f"{f.qualname}: sentinel {ivar} = {[av[1] for av in consts]} reaches write_index", "when no branch matches, the sentinel index can reach the write instead of raising")
+    other = [av for av in final if av[0] in ("loop", "last", "other")]
+    ctx.check(rule, f"{f.qualname}: the index written is always a selected branch index", not other, f.where(widx[0]), f"{f.qualname}: {ivar} may be {sorted(set(av[0] for av in other))} at write_index", "the index written is not the result of a selection (the last loop value, or a value of unknown origin)")
 
 
 def _is_validate_call(a, f, e):
